@@ -1,5 +1,8 @@
 (* The invariant of the conductor model and its preservation by every operation (all histories). *)
-Require Import V.Base.MachineInt V.Generated.GenConsts V.Model.Conductor V.Proofs.ConductorBase.
+Require Import V.Base.MachineInt.
+Require Import V.Generated.GenConsts.
+Require Import V.Model.Conductor.
+Require Import V.Proofs.ConductorBase.
 From Coq Require Import ZifyBool.
 Open Scope Z_scope.
 
